@@ -19,6 +19,8 @@ type SchedConfig struct {
 	ClockMode    string   `json:"clock_mode"`
 	ClockBase    int64    `json:"clock_base"`
 	IdentMode    string   `json:"ident_mode"`
+	Bubble       bool     `json:"bubble,omitempty"`
+	GoMode       string   `json:"go_mode,omitempty"`
 	Replay       []Choice `json:"replay,omitempty"`
 	UseReplay    bool     `json:"use_replay,omitempty"`
 	Sandbox      string   `json:"sandbox,omitempty"`
